@@ -1053,6 +1053,31 @@ def section_pytree(env, ctx, model):
                 good = good and isinstance(gr, BA) and same(gr, 2 * x)
                 gr2 = jax.grad(lambda u: snp.linalg.norm(u) ** 2)(x + 1)
                 good = good and isinstance(gr2, BA) and same(gr2, 2 * (x + 1), exact=False)
+            # tracing modes: every kind of lifted operation gives the same block array under jit as eagerly
+            y2 = gen_block(env, rng, st, kd)
+            ops = {
+                "neg": lambda u, v: -u, "add-block": lambda u, v: u + v, "rmul-scalar": lambda u, v: 3 * u,
+                "cmp": lambda u, v: u > v, "real": lambda u, v: u.real, "imag": lambda u, v: u.imag, "T": lambda u, v: u.T,
+                "conj": lambda u, v: u.conj(), "ravel": lambda u, v: u.ravel(), "sum-method": lambda u, v: u.sum(),
+                "reshape": lambda u, v: u.reshape(-1), "astype": lambda u, v: u.astype(jnp.complex64),
+                "map-pos": lambda u, v: snp.multiply(u, v), "map-kw": lambda u, v: snp.where(u == v, x=u, y=v),
+                "reduce": lambda u, v: snp.sum(u), "reduce-axis": lambda u, v: snp.sum(snp.atleast_1d(u), axis=0),
+                "norm": lambda u, v: snp.linalg.norm(u), "zeros-like-shape": lambda u, v: snp.zeros(u.shape, u.dtype) + u,
+            }
+            for nm, fop in (ops.items() if (ctx.thorough or st in ("a", "d")) else ()):
+                try:
+                    e = ("ok", fop(x, y2))
+                except Exception as exc:  # noqa: BLE001
+                    e = ("err", common.err_kind(exc))
+                try:
+                    jt = ("ok", jax.jit(fop)(x, y2))
+                except Exception as exc:  # noqa: BLE001
+                    jt = ("err", common.err_kind(exc))
+                ctx.count("pytree:jit-vs-eager")
+                okj = (e[0] == jt[0]) and (e[0] == "err" or (type(e[1]) is type(jt[1]) or not isinstance(e[1], BA)) and same(e[1], jt[1], exact=False))
+                if not okj:
+                    ctx.disagree("block.jit", {"section": "pytree", "op": nm, "struct": st, "kind": kd, "x": jsonable(x)},
+                                 show_impl(jt), show_impl(e), oracle=lambda c, e=e, jt=jt, nm=nm: {"operation": nm, "x": c["x"], "eager": show_impl(e), "under_jit": show_impl(jt)})
             good = good and x.dtype == x.arrays[0].dtype and all(b.dtype == x.dtype for b in x.arrays)
             if not good:
                 ctx.disagree("block.pytree", {"section": "pytree", "struct": st, "kind": kd, "x": jsonable(x)}, "round trip / jit / grad mismatch", "identity")
